@@ -237,6 +237,15 @@ theorem digest_commits_bip143 (H : Bytes → Bytes) (sc : Bytes) (ht : UInt32) (
   have := H_inj hd; subst this
   exact Commit.bip143_injective H sc ht idx c₁ c₂ w₁ w₂ hok m₁ h₁ h₂
 
+theorem digest_commits_legacy (H : Bytes → Bytes) (sc : Bytes) (ht : UInt32) (idx : Nat) (c₁ c₂ : Ctx)
+    (w₁ : c₁.tx.wf) (w₂ : c₂.tx.wf) (hsc : sc.length < 2^64)
+    (m₁ m₂ : Bytes) (h₁ : legacyMsgC sc ht idx c₁ = some (.msg m₁))
+    (h₂ : legacyMsgC sc ht idx c₂ = some (.msg m₂))
+    (H_inj : dH H m₁ = dH H m₂ → m₁ = m₂) (hd : dH H m₁ = dH H m₂) :
+    AgreeOn (legacyCommitted ht idx) c₁ c₂ := by
+  have := H_inj hd; subst this
+  exact Commit.legacy_injective sc ht idx c₁ c₂ w₁ w₂ hsc m₁ h₁ h₂
+
 theorem digest_commits_bip341 (H : Bytes → Bytes) (ht : UInt32) (idx : Nat)
     (annex : Option Bytes) (ext : Option TapExt) (c₁ c₂ : Ctx) (w₁ : c₁.wf) (w₂ : c₂.wf)
     (hok : HashOK H (bip341Hashed idx c₁ ++ bip341Hashed idx c₂))
